@@ -10,6 +10,7 @@ import SradModel.Drv.Templ
 import SradModel.Drv.Admit
 import SradModel.Drv.Derive
 import SradModel.Drv.HostLoop
+import SradModel.Drv.Topic
 
 open Srad Srad.Drv
 
@@ -30,6 +31,7 @@ def step (st : DState) (line : String) : DState × String :=
     let (h, o) := stepHost st.host rest
     ({ st with host := h }, o)
   | "admit" :: rest => (st, stepAdmit rest)
+  | "topic" :: rest => (st, stepTopic rest)
   | "hostloop" :: rest =>
     let (h, o) := stepHostLoop st.hostloop rest
     ({ st with hostloop := h }, o)
